@@ -26,7 +26,7 @@ import (
 func init() {
 	Registry["C14"] = &Check{
 		Scenarios: c14Scenarios,
-		Rule: "events: CloseNotify requested {inside the first handler, by a free application thread at every possible instant (in particular while the reader is parked in Read), twice (handler + thread), after termination}; two messages delivered in three fragments (one fragment boundary inside the first header); a Read after the local end was closed reports io.ErrClosedPipe / net.ErrClosed / the harness's own error depending on the request mode; termination by {peer EOF, transport read error, a read error that reports itself as temporary (once), EOF / read error returned by the same Read that delivers the last message (n > 0 with err != nil), undecodable header followed by trailing bytes, local Close from a free thread at every instant, a handler panic on the second message (recovered by the serve loop)}; an observer thread records the instant the channel closes. The requesting / closing / observing threads and the peer are environment threads, so every ordering of their steps against the library's steps is explored even at preemption bound 0; library preemption bound 2 (quick) / unbounded (thorough). The same request modes {handler, thread, after} x terminations {EOF, undecodable input, local Close, EOF inside a header, EOF / reset inside a body, a read that returns a whole message together with an error} on a multistream (in-memory SCTP) connection, where CloseNotify installs a read-error handler. Also a handler (of a message read through the switched reader) that waits on the channel while the peer ends the connection {EOF, reset}: the notifier is then the only goroutine able to observe the end. Also a local Close while the handler of a later message is busy and the notifier holds the bytes of a further message; the busy handler then panics or returns. Also CloseNotify active on two connections at once, one notifier holding a message while the other passes one on. Also a handler that ends its goroutine with runtime.Goexit (the reader unwinds without a read error and without a panic value), CloseNotify requested {in the first handler, by the application before anything arrives}. Also a local Close while an application goroutine's Write is stuck inside the transport (the peer has stopped reading). Also a Server with ReadTimeout 3 s whose second message arrives split (0, 1, 7, 20, 30 octets with the first message, the rest 2 s later): both are delivered and the connection ends after a real idle period. Also a connection accepted by a Server with ReadTimeout 2 s that idles into its read deadline (virtual clock), CloseNotify requested {in the handler, by a thread, not at all}. Also sm.Client with the watchdog enabled followed by a quiet peer close, preceded by 0, 1, 2 or 3 unsolicited success DWAs (in one segment or one segment each) (virtual time, horizon 12 s).",
+		Rule: "a handler that has requested CloseNotify answers and the transport refuses that write with a permanent non-timeout error (none, one or all octets accepted): the channel stays open, the next message is still handled, the channel closes when the peer ends the connection (EOF / reset / undecodable input); events: CloseNotify requested {inside the first handler, by a free application thread at every possible instant (in particular while the reader is parked in Read), twice (handler + thread), after termination}; two messages delivered in three fragments (one fragment boundary inside the first header); a Read after the local end was closed reports io.ErrClosedPipe / net.ErrClosed / the harness's own error depending on the request mode; termination by {peer EOF, transport read error, a read error that reports itself as temporary (once), EOF / read error returned by the same Read that delivers the last message (n > 0 with err != nil), undecodable header followed by trailing bytes, local Close from a free thread at every instant, a handler panic on the second message (recovered by the serve loop)}; an observer thread records the instant the channel closes. The requesting / closing / observing threads and the peer are environment threads, so every ordering of their steps against the library's steps is explored even at preemption bound 0; library preemption bound 2 (quick) / unbounded (thorough). The same request modes {handler, thread, after} x terminations {EOF, undecodable input, local Close, EOF inside a header, EOF / reset inside a body, a read that returns a whole message together with an error} on a multistream (in-memory SCTP) connection, where CloseNotify installs a read-error handler. Also a handler (of a message read through the switched reader) that waits on the channel while the peer ends the connection {EOF, reset}: the notifier is then the only goroutine able to observe the end. Also a local Close while the handler of a later message is busy and the notifier holds the bytes of a further message; the busy handler then panics or returns. Also CloseNotify active on two connections at once, one notifier holding a message while the other passes one on. Also a handler that ends its goroutine with runtime.Goexit (the reader unwinds without a read error and without a panic value), CloseNotify requested {in the first handler, by the application before anything arrives}. Also a local Close while an application goroutine's Write is stuck inside the transport (the peer has stopped reading). Also a Server with ReadTimeout 3 s whose second message arrives split (0, 1, 7, 20, 30 octets with the first message, the rest 2 s later): both are delivered and the connection ends after a real idle period. Also a connection accepted by a Server with ReadTimeout 2 s that idles into its read deadline (virtual clock), CloseNotify requested {in the handler, by a thread, not at all}. Also sm.Client with the watchdog enabled followed by a quiet peer close, preceded by 0, 1, 2 or 3 unsolicited success DWAs (in one segment or one segment each) (virtual time, horizon 12 s).",
 		Assume: []string{"data-race freedom between visible operations (audited separately with -race)", "io.Pipe is modelled by vsched.Pipe (Write blocks until the data is consumed or either end is closed)"},
 		QuickBudget: 100, ThoroughBudget: 1500,
 	}
@@ -83,6 +83,7 @@ func c14Scenarios(tier string) []*Scenario {
 	}
 	for _, term := range []string{"eof", "rerr"} {
 		out = append(out, c14HandlerWaits(term, bound))
+		out = append(out, c14WriteFault(term, bound))
 	}
 	for _, exit := range []string{"panic", "return"} {
 		out = append(out, c14LocalCloseBusyHandler(exit, bound))
@@ -1064,4 +1065,93 @@ func c14CloseWhileWriteBlocked(req string, bound int) *Scenario {
 	}
 	return &Scenario{Name: "closenotify-local-close-while-write-blocked/" + req, Body: body, Check: check, Bound: bound, Horizon: 10 * time.Second,
 		Outcome: func(s *vs.Sched) string { return fmt.Sprint(c14st.conn.Closed, writeReturned, writeErr != nil) }}
+}
+
+// c14WriteFault: the first handler requests CloseNotify and answers; the transport refuses that
+// write with a plain (permanent, non-timeout) error after accepting none, one or all of its octets.
+// A failed write is not a termination: the read side is healthy, the second message is still
+// delivered and handled, and the channel is still open then. It closes when the peer really ends
+// the connection.
+func c14WriteFault(term string, bound int) *Scenario {
+	m1, m2 := c14msg(1), c14msg(2)
+	var early string
+	var werr error
+	body := func() {
+		st := &c14State{}
+		c14st = st
+		early, werr = "", nil
+		conn := vnet.NewConn("A")
+		conn.Pieces = 1
+		k := map[string]int{"eof": 0, "rerr": 1, "garbage": 4}[term]
+		conn.WScript = []vnet.WOutcome{{N: -(k + 1), Err: errors.New("write: broken pipe")}}
+		st.conn = conn
+		mux := diam.NewServeMux()
+		mux.HandleFunc("ALL", func(c diam.Conn, m *diam.Message) {
+			st.handled = append(st.handled, m.Header.HopByHopID)
+			if len(st.handled) == 1 {
+				st.chs = append(st.chs, c.(diam.CloseNotifier).CloseNotify())
+				_, werr = m.Answer(2001).WriteTo(c)
+				if st.chs[0].IsClosed() && !st.termIssued && !conn.Closed {
+					early = "the CloseNotify channel was closed by a failed write (the connection is open, its read side healthy)"
+				}
+				return
+			}
+			if st.chs[0].IsClosed() && !st.termIssued && !conn.Closed {
+				early = "the CloseNotify channel is closed while messages are still being delivered and handled (after a failed write; no terminating event has occurred)"
+			}
+		})
+		if _, err := diam.NewConn(conn, "peer", mux, dict.Default); err != nil {
+			panic(err)
+		}
+		vs.GoNamed("peer", true, func() {
+			conn.Deliver(m1)
+			vs.Yield("env")
+			conn.Deliver(m2[:30])
+			vs.Yield("env")
+			conn.Deliver(m2[30:])
+			vs.Yield("env")
+			vs.BlockObj("peer-waits-for-handler-2", conn, func() bool { return len(st.handled) >= 2 || conn.Closed })
+			st.termIssued = true
+			switch term {
+			case "eof":
+				conn.PeerEOF()
+			case "rerr":
+				conn.PeerErr(errors.New("connection reset by peer"))
+			case "garbage":
+				bad := make([]byte, 20)
+				bad[0], bad[3] = 1, 60
+				bad[5], bad[6], bad[7] = 0xff, 0xff, 0xfe
+				conn.Deliver(bad)
+				vs.Yield("env")
+				conn.PeerEOF()
+			}
+		})
+	}
+	check := func(s *vs.Sched) string {
+		st := c14st
+		var v []string
+		if p := s.Panics(); len(p) > 0 {
+			v = append(v, "panic: "+strings.Join(p, "; "))
+		}
+		if early != "" {
+			v = append(v, early)
+		}
+		if fmt.Sprint(st.handled) != "[1 2]" {
+			v = append(v, fmt.Sprintf("handlers saw messages %v, the peer delivered [1 2] (a failed write does not end the connection)", st.handled))
+		}
+		if len(st.chs) == 1 && !st.chs[0].IsClosed() {
+			v = append(v, "the peer ended the connection ("+term+") and the CloseNotify channel was never closed")
+		}
+		if !st.conn.Closed {
+			v = append(v, "the transport was never closed although the peer ended the connection ("+term+")")
+		}
+		if b := s.BlockedLib(); len(b) > 0 {
+			v = append(v, "library goroutines still alive after the peer ended the connection: "+strings.Join(b, ", "))
+		}
+		return strings.Join(v, " | ")
+	}
+	outcome := func(s *vs.Sched) string {
+		return fmt.Sprintf("handled=%v early=%v writeerr=%v closed=%v blockedlib=%d", c14st.handled, early != "", werr != nil, c14st.conn.Closed, len(s.BlockedLib()))
+	}
+	return &Scenario{Name: "closenotify/write-fault-is-not-a-termination/" + term, Body: body, Check: check, Outcome: outcome, Bound: bound, Horizon: 10 * time.Second}
 }
